@@ -162,6 +162,26 @@ Theorem C01_oci_digest_read_back :
   oci_digest d = inl (sha256_prefix ++ hex_of (sha256 (di_content di))).
 Proof. exact stored_oci_digest. Qed.
 
+(* Header accessors: the launch script given at creation (at most 32 bytes, not
+   ending in NUL; C01_created_objects_read_back gives h_launch = pad_to 32 of
+   it) is what LaunchScript() returns; PrimaryArch() names the architecture of
+   the primary system partition just written (C01_added_object_read_back gives
+   h_arch = new_arch), and is untouched by any other object. *)
+Theorem C01_launch_script_read_back :
+  forall h l, (length l <= 32)%nat -> last l x01 <> x00 -> h_launch h = pad_to 32 l -> launch_of h = l.
+Proof. exact launch_roundtrip. Qed.
+
+Theorem C01_primary_arch_read_back :
+  forall h h' di fs arch_name,
+  opt_partition (di_type di) fs PartPrimSys arch_name = Some (di_md di) ->
+  h_arch h' = new_arch h di -> primary_arch h' = arch_name.
+Proof. exact primary_arch_of_new_partition. Qed.
+
+Theorem C01_primary_arch_unchanged_by_others :
+  forall h h' di, (forall fs a, di_md di <> MdPart fs PartPrimSys a) ->
+  h_arch h' = new_arch h di -> primary_arch h' = primary_arch h.
+Proof. exact primary_arch_unchanged. Qed.
+
 (* A crypto.Hash outside SHA-256/384/512 and BLAKE2s/b-256 is written as hash
    type 0, and SignatureMetadata refuses hash type 0: such a signature object
    is stored, but its metadata cannot be read back (the property's quantifier
@@ -208,3 +228,6 @@ Print Assumptions C01_crypto_metadata_read_back.
 Print Assumptions C01_sbom_metadata_read_back.
 Print Assumptions C01_oci_digest_read_back.
 Print Assumptions C01_unsupported_hash_not_representable.
+Print Assumptions C01_launch_script_read_back.
+Print Assumptions C01_primary_arch_read_back.
+Print Assumptions C01_primary_arch_unchanged_by_others.
